@@ -139,6 +139,7 @@ type Case struct {
 	SGroups []SGroup `json:"sgroups"`
 	SReqs   []SReq   `json:"sreqs"`
 	UseMw   bool     `json:"usemw"`
+	Natives bool     `json:"natives"` // srv: also switch on the log / trace / prometheus / metrics middlewares in front of the gates
 }
 
 type TpCall struct {
@@ -1203,8 +1204,11 @@ type srvCur struct {
 
 func buildSrv(c Case, cur *srvCur, so *SrvObs) http.Handler {
 	var rc rest.RestConf
-	if err := conf.LoadFromJsonBytes([]byte(`{"Name":"c18","Host":"127.0.0.1","Port":70000,"CpuThreshold":0,`+
-		`"Middlewares":{"Shedding":false,"Log":false,"Prometheus":false,"Trace":false,"Metrics":false}}`), &rc); err != nil {
+	mws := `"Middlewares":{"Shedding":false,"Log":false,"Prometheus":false,"Trace":false,"Metrics":false}}`
+	if c.Natives {
+		mws = `"Middlewares":{"Shedding":false,"Log":true,"Prometheus":true,"Trace":true,"Metrics":true}}`
+	}
+	if err := conf.LoadFromJsonBytes([]byte(`{"Name":"c18","Host":"127.0.0.1","Port":70000,"CpuThreshold":0,`+mws), &rc); err != nil {
 		hx.Fatal("rest conf: %v", err)
 	}
 	rt := router.NewRouter()
@@ -1548,6 +1552,11 @@ func codecExtras(key, plain, enc []byte, encOk bool) (diff string) {
 	}
 	if _, err := codec.EcbDecryptBase64(strings.Repeat("@", 40), "AAAA"); err == nil {
 		diff += " getKeyBytes-accepts-garbage"
+	}
+	if encOk {
+		// well-formed base64 of something that is not a ciphertext: an error or some bytes, never a panic
+		codec.EcbDecryptBase64(string(key), b64.EncodeToString(bytes.Repeat([]byte{0xFF}, 16)))
+		codec.EcbDecryptBase64(string(key), b64.EncodeToString([]byte("short")))
 	}
 	if blk, err := aes.NewCipher(key); err == nil {
 		e, d := codec.NewECBEncrypter(blk), codec.NewECBDecrypter(blk)
